@@ -63,7 +63,7 @@ broadcast use crate::bv::group_bv;
 #[verifier::external_body]
 fn read_command(r: &mut CommandReader) -> (c: Option<Command<'static>>)
     ensures
-        remaining(*old(r)) > 0 ==> remaining(*final(r)) == remaining(*old(r)) - 1 && c == next_cmd(*old(r)),
+        remaining(*old(r)) > 0 ==> remaining(*final(r)) == remaining(*old(r)) - 1 && c == next_cmd(*old(r)) && last_cmd(*final(r)) == c,
         remaining(*old(r)) == 0 ==> remaining(*final(r)) == 0 && c is None && next_cmd(*old(r)) is None,
         c matches Some(cmd) ==> cmd_wf(cmd),
 { unimplemented!() }
@@ -126,7 +126,7 @@ impl RunEnvironment {
             if let Some(debugger) = &mut self.debugger {>>> ==> <<<loop
             invariant
                 self.state.orig == old(self).state.orig,
-                self.debugger matches Some(d) ==> dbg_wf(d) && self.state.orig == d.asm_source.orig,
+                self.debugger matches Some(d) ==> dbg_wf(d) && self.state.orig == d.asm_source.orig && cb_fresh(d, self.state.pc),
             ensures
                 self.state.pc == 0xFFFF,
         {
@@ -151,7 +151,7 @@ impl RunEnvironment {
             // PC>>>
 //@exit 0xEE self.state.pc != 0xFFFF && !in_user(self.state.orig, self.state.pc as int)
         requires
-            old(self).debugger matches Some(d) ==> dbg_wf(d) && old(self).state.orig == d.asm_source.orig,
+            old(self).debugger matches Some(d) ==> dbg_wf(d) && old(self).state.orig == d.asm_source.orig && d.current_breakpoint is None,
             old(self).state.orig <= 0xFFFF,
         ensures
             // the loop ends normally only at the halt sentinel, or through the debugger's `exit` command
